@@ -9,7 +9,7 @@ delivered circuit itself and requires it to prepare the group modulo signs.
 from .. import core, impl, sweep
 from . import C01
 
-CLAUSES = {"diag", "inverse", "sign-dep", "raised", "unknown-gate"}
+CLAUSES = {"diag", "inverse", "sign-dep", "raised", "unknown-gate", "mutated-after-return"}
 
 
 def run(tier):
@@ -17,7 +17,9 @@ def run(tier):
     L = impl.lib()
     inputs = C01.build_inputs(ck, tier, ck.rng)
     jobs = sweep.expand_jobs(inputs, ["readout"], ck.rng)
-    traces, verdicts = sweep.run_jobs(ck, L, jobs, "readout")
+    sweeps = sweep.sign_sweep_jobs(inputs, "readout", ck.rng)
+    traces, verdicts = sweep.run_jobs(ck, L, jobs, "readout", sweeps=sweeps)
+    ck.cov["sign_sweeps_in_one_process"] = len(sweeps)
     sweep.report(ck, "C03", traces, verdicts, CLAUSES)
     alt = sum(1 for t in traces if t["hasalt"] and t["alt"] == t["gates"] and any(a != b for a, b in zip(t["target"], [c % impl.W2 for c in t["target"]])))
     ck.cov["traces_with_second_sign_vector"] = sum(t["hasalt"] for t in traces)
